@@ -400,10 +400,15 @@ def run_scenario_two(spec, fa, fb):
         base = nw.world.steps
         nw.world.step_hooks[base + fa[0]] = lambda: inject(sc, fa[1])
         nw.world.step_hooks[base + fb[0]] = lambda: inject(sc, fb[1])
+        if name.endswith("/consumer-last"):
+            nw.world.low_kind = "_wait_for_resp_msg"
         for ev in script:
             sc.apply(ev)
         # a second connection attempt after the first fault, hit by the second one
         nw.world.step_hooks.clear()
+        nw.world.low_kind = None
+        if kind == "hold":
+            nw.apps[0].behaviour = "answer"     # from now on (the probe) requests are answered at once
         for _ in range(9):
             sc.apply(("tick", 1))
         return 0, service_probe(sc, limit, name)
